@@ -1,33 +1,54 @@
 #!/usr/bin/env python3
-"""tools/try_seed.py <seed-id> <property> [tier]  — apply seeded/<id>/patch.diff to /repo, run the demo and the
-check, undo, and record what happened in seeded/<id>/result.json. Never leaves /repo modified."""
+"""tools/try_seed.py <seed-id> <property> [tier] [--inplace]
+
+Run the demonstration and the check against the seeded change seeded/<id>/patch.diff and record what
+happened in seeded/<id>/result.json. Default: the patch is applied to a scratch worktree of /repo's HEAD
+(/tmp/seedwt-<id>, removed afterwards) and the check runs with VERIF_REPO pointing at it, so that several
+people can work at once. --inplace applies it to /repo itself (git apply … git checkout -- .), as the task
+brief describes; /repo must be clean."""
 import json, subprocess, sys, os, time
 from pathlib import Path
 V = Path(__file__).resolve().parent.parent
-sid, prop = sys.argv[1], sys.argv[2]
-tier = sys.argv[3] if len(sys.argv) > 3 else 'quick'
+args = [a for a in sys.argv[1:] if a != '--inplace']
+inplace = '--inplace' in sys.argv
+sid, prop = args[0], args[1]
+tier = args[2] if len(args) > 2 else 'quick'
 d = V / 'seeded' / sid
 def sh(cmd, **kw):
     return subprocess.run(cmd, shell=True, stdout=subprocess.PIPE, stderr=subprocess.STDOUT, text=True, **kw)
-assert sh('git -C /repo status --porcelain --untracked-files=no').stdout.strip() == '', '/repo not clean'
-res = {'seed': sid, 'property': prop, 'tier': tier}
+res = {'seed': sid, 'property': prop, 'tier': tier, 'mode': 'inplace' if inplace else 'worktree'}
 demo = d / 'demo.py'
 env = dict(os.environ, PYTHONPATH='/repo/src', exabgp_log_enable='false')
 if demo.exists():
-    res['demo_unpatched_rc'] = sh(f'/venv/bin/python {demo}', env=env, cwd='/tmp').returncode
-r = sh(f'git -C /repo apply {d}/patch.diff')
+    res['demo_unpatched_rc'] = sh(f'timeout 300 /venv/bin/python {demo}', env=env, cwd='/tmp').returncode
+if inplace:
+    assert sh('git -C /repo status --porcelain --untracked-files=no').stdout.strip() == '', '/repo not clean'
+    target = '/repo'
+else:
+    target = f'/tmp/seedwt-{sid}'
+    sh(f'git -C /repo worktree remove --force {target}')
+    r = sh(f'git -C /repo worktree add --detach {target} HEAD')
+    assert r.returncode == 0, r.stdout
+r = sh(f'git -C {target} apply {d}/patch.diff')
 assert r.returncode == 0, r.stdout
+penv = dict(os.environ, PYTHONPATH=f'{target}/src', exabgp_log_enable='false')
 try:
     if demo.exists():
-        res['demo_patched_rc'] = sh(f'/venv/bin/python {demo}', env=env, cwd='/tmp').returncode
+        res['demo_patched_rc'] = sh(f'timeout 300 /venv/bin/python {demo}', env=penv, cwd='/tmp').returncode
     t = time.time()
-    c = sh(f'./check {prop} --tier {tier}', cwd=V, env=dict(os.environ, VERIF_BUDGET=os.environ.get('VERIF_BUDGET', '90')))
+    cenv = dict(os.environ, VERIF_BUDGET=os.environ.get('VERIF_BUDGET', '90'))
+    if not inplace:
+        cenv.update(VERIF_REPO=target, PYTHONPATH=f'{target}/src')
+    c = sh(f'./check {prop} --tier {tier}', cwd=V, env=cenv)
     res['check_rc'] = c.returncode
     res['check_wall_s'] = round(time.time() - t, 1)
     lines = [l for l in c.stdout.splitlines() if l.startswith(('VIOLATION', 'KNOWN-FINDING', 'BROKEN', 'OK ', 'obligations='))]
     res['check_lines'] = lines[:12]
     res['with_failing_input'] = any(l.startswith('VIOLATION') and 'no-failing-input-found' not in l for l in lines)
 finally:
-    sh('git -C /repo checkout -- .')
+    if inplace:
+        sh('git -C /repo checkout -- .')
+    else:
+        sh(f'git -C /repo worktree remove --force {target}')
 (d / 'result.json').write_text(json.dumps(res, indent=1))
 print(json.dumps(res, indent=1))
